@@ -13,7 +13,7 @@ RULE = ('a model grid (numbers drawn as literals: sign, digits, fraction, e/E ex
         'with/without zone name, s: prefix or bare string when legal, nested lists/dicts/grids under 3.0, rows present / '
         'absent / null, rows omitting or null-ing columns, position of ver/name among the tags, order of meta/cols/rows and '
         'of row keys), handed to hszinc.parse as text (compact, indented, ensure_ascii on/off), bytes (utf-8/16/32), dict or '
-        'list of dicts with single True/False; the result must be exactly the denoted grids, the pre-decoded input must be '
+        'list of dicts (also with equal nested sub-objects aliased to one object) with single True/False; the result must be exactly the denoted grids, the pre-decoded input must be '
         'deep-equal to its copy afterwards and share no mutable object with the result. Non-trivial = at least one '
         'non-plain spelling or a non-text input form; distinct by (models, plan, form).')
 ASSUMPTIONS = ['well-formedness is defined by DESIGN.md Appendix B; a bare string is legal iff its second character is not ":"',
@@ -21,7 +21,19 @@ ASSUMPTIONS = ['well-formedness is defined by DESIGN.md Appendix B; a bare strin
                'dict values with all of meta, cols, rows as keys are not generated (indistinguishable from a nested grid)']
 FEATURES = {}
 EXHAUSTIVE_CLAIM = False
-FORMS = ['text', 'text-indent', 'text-unicode', 'bytes:utf-8', 'bytes:utf-16', 'bytes:utf-32', 'obj']
+FORMS = ['text', 'text-indent', 'text-unicode', 'bytes:utf-8', 'bytes:utf-16', 'bytes:utf-32', 'obj', 'obj-aliased']
+
+
+def alias_equal(o, pool=None):
+    pool = {} if pool is None else pool
+    if isinstance(o, dict):
+        o = dict((k, alias_equal(v, pool)) for k, v in o.items())
+    elif isinstance(o, list):
+        o = [alias_equal(v, pool) for v in o]
+    else:
+        return o
+    key = json.dumps(o, sort_keys=True)
+    return pool.setdefault(key, o)
 
 
 def mutable_ids(o, acc=None):
@@ -70,6 +82,9 @@ def check_doc(case, acc=None):
     kw = {}
     if form == 'obj':
         inp = obj
+    elif form == 'obj-aliased':
+        # a caller may build its input from shared sub-objects: equal nested arrays/objects become one object
+        inp = alias_equal(obj)
     else:
         if form == 'text-indent':
             txt = json.dumps(obj, indent=2)
@@ -83,14 +98,14 @@ def check_doc(case, acc=None):
             kw['charset'] = cs
         else:
             inp = txt
-    keep = copy.deepcopy(inp) if form == 'obj' else None
+    keep = copy.deepcopy(inp) if form.startswith('obj') else None
     single = case.get('single', not as_array)
     if acc is not None:
         for k in plan.used:
             acc.label('spelling:' + k)
     shown = dict(case, json=json.dumps(obj)[:1500])
     got = guarded('parse-raises', shown, hszinc.parse, inp, mode=hszinc.MODE_JSON, single=single, **kw)
-    if form == 'obj':
+    if form.startswith('obj'):
         if keep != inp:
             raise Violation('input-modified', shown, 'the caller\'s pre-decoded object was modified by parse')
     if single:
@@ -107,7 +122,7 @@ def check_doc(case, acc=None):
         d = model.diff(model.normalise(m), model.to_model(b), path='grid[%d]' % i)
         if d:
             raise Violation('decoded-other-value', shown, d, (d.split(':')[1].split()[0], form.split(':')[0]))
-    if form == 'obj':
+    if form.startswith('obj'):
         shared = set()
         for g in got:
             result_mutables(g, shared)
